@@ -184,7 +184,7 @@ theorem residue_offset_restarts_closed_form :
 
 /-- an overlay-only modification (the shipped mappings are of this kind) -/
 def exModOverlay : ModPlacement := ModPlacement.mk [(11, [(0, 1)]), (12, [(0, 1)])]
-  [ModNode.mk 0 { name := some "B1" } false {}] [] [("position_restraints", { atoms := [0], params := "1 1000", version := 0 })] []
+  [ModNode.mk 0 { name := some "B1" } false {}] [] [("position_restraints", { atoms := [0], params := "1 1000", version := some 0 })] []
 
 example : NoCoreRepl [exModOverlay] ∧ NoNew [exModOverlay] := by decide
 example : startsWithBlock (eventsOf [exRes 0 1, exRes 10 11, exRes 20 21] [exModOverlay]) = true := by decide
